@@ -840,6 +840,12 @@ func writeEvidence(g *G, prop string, results []*FuncResult, obls []*Obl, nObl, 
 		"violating_obligations":    vs,
 		"undecided":                undecided,
 		"contract_scan":            g.specs.Scan,
+		"canaries": func() string {
+			if v := os.Getenv("GOVC_CANARIES"); v != "" {
+				return "must-fail / must-stay-green corpus of this property (/verif/selftest, thorough tier): " + v
+			}
+			return "not run in this tier (thorough tier only)"
+		}(),
 		"trusted_contract_validation": func() string {
 			if v := os.Getenv("GOVC_TRUSTED_DIFFTEST"); v != "" {
 				return "bounded differential tests of the trusted library contracts (/verif/trusted/difftest, thorough tier): " + v
